@@ -23,7 +23,10 @@ RULE = (
     "pool built for the quantifier: distinct lambdas, distinct functions with equal __name__ from different factories, one function "
     "with different static positional/keyword arguments, equal static arguments of different type (1, 1.0, '1', True), "
     "functools.partial, library binary operations (add/subtract/multiply/divide, either operand order), stack with axis 0/1/-1 and the "
-    "default or a caller-owned keyword dict (pairs differing only in the requested axis must not end in nodes of one name); the union is taken with Cascade.from_actions, Cascade.__add__ and Graph.__add__ + deduplicate_nodes; "
+    "default or a caller-owned keyword dict (pairs differing only in the requested axis must not end in nodes of one name), container "
+    "statics that print alike in some notations (tuple / list, int / str keys), one user-owned template Payload whose static argument is "
+    "changed in place between uses, one-element NumPy arrays as static arguments (equal copies, values differing below print precision, "
+    "the Python float of the same value), programs optionally collapsed to a single node; the union (of two actions, or of one action alone) is taken with Cascade.from_actions, Cascade.__add__ and Graph.__add__ + deduplicate_nodes; "
     "(operands) fluent programs from the C13 generator plus identity/derived transform, with a snapshot (node identities, dims, "
     "coordinate values, attrs) of every pre-existing action before and after each operation. non-trivial = (names) the two programs "
     "differ in exactly one callable or one static argument at the same position; (operands) an operation with a second action whose "
@@ -70,6 +73,9 @@ def _mk_pool():
     def g(x, k=0, *rest, s=0):
         return x + k + s
 
+    def ga(x, k=0, *rest, s=0):  # the callable that takes array-valued static arguments
+        return x * k + s
+
     def red(*xs):
         return sum(xs)
 
@@ -77,17 +83,22 @@ def _mk_pool():
         return max(xs)
 
     red2.__name__ = "red"
-    return {"lam_a": lam_a, "lam_b": lam_b, "fac1": fac1(), "fac2": fac2(), "g": g, "red": red, "red_other": red2}
+    return {"lam_a": lam_a, "lam_b": lam_b, "fac1": fac1(), "fac2": fac2(), "g": g, "ga": ga, "red": red, "red_other": red2}
 
 
 POOL = _mk_pool()
 STATIC = {"i1": 1, "f1": 1.0, "s1": "1", "b1": True, "i2": 2, "none": None,
           # containers that print alike in some notations: tuple / list, int / str keys
           "t01": (0, 1), "l01": [0, 1], "dk_i": {1: 10}, "dk_s": {"1": 10}, "nest_t": ((0, 1), 2), "nest_l": ([0, 1], 2)}
+# one-element weight arrays, given to a callable of their own (the library's union compares payloads with ==; an array against a list
+# or an array of several elements has no boolean ==): arr_a and arr_b differ below NumPy's print precision, arr_c prints
+# differently, arr_a2 is an equal copy of arr_a, f05 is the Python float of the same value
+ARRAYS = {"arr_a": np.array([0.5]), "arr_a2": np.array([0.5]), "arr_b": np.array([0.5 + 1e-10]), "arr_c": np.array([1.5]), "f05": 0.5}
 
 step_st = st.one_of(
     st.tuples(st.just("map"), st.sampled_from(["lam_a", "lam_b", "fac1", "fac2"])).map(list),
     st.tuples(st.just("mapg"), st.sampled_from(sorted(STATIC)), st.sampled_from(["pos", "kw", "partial"])).map(list),
+    st.tuples(st.just("mapa"), st.sampled_from(sorted(ARRAYS)), st.sampled_from(["pos", "kw", "partial"])).map(list),
     st.tuples(st.just("reduce"), st.sampled_from(["red", "red_other"])).map(list),
     st.tuples(st.just("yields"), st.sampled_from(["gen"])).map(list),
     st.tuples(st.just("binary"), st.sampled_from(["subtract", "add", "multiply", "divide"]), st.sampled_from(["fwd", "rev"])).map(list),
@@ -118,6 +129,8 @@ def name_cases(draw):
                 s[1] = draw(st.sampled_from(sorted(STATIC)))
             else:
                 s[2] = draw(st.sampled_from(["pos", "kw", "partial"]))
+        elif s[0] == "mapa":
+            s[1] = draw(st.sampled_from([k for k in sorted(ARRAYS) if k != s[1]]))
         elif s[0] == "binary":
             if draw(st.booleans()):
                 s[2] = "rev" if s[2] == "fwd" else "fwd"  # same operation, same operands, other operand order
@@ -215,14 +228,15 @@ def _build_chain(shape, steps, lambda_sources=False, applied=None, caller_kw=Non
             a = sel.reduce(POOL["red"], dim=d)
         elif s[0] == "map":
             a = a.map(POOL[s[1]])
-        elif s[0] == "mapg":
-            v = STATIC[s[1]]
+        elif s[0] in ("mapg", "mapa"):
+            v = STATIC[s[1]] if s[0] == "mapg" else ARRAYS[s[1]]
+            fn = POOL["g"] if s[0] == "mapg" else POOL["ga"]
             if s[2] == "pos":
-                a = a.map(fluent.Payload(POOL["g"], [fluent.Node.input_name(0), v]))
+                a = a.map(fluent.Payload(fn, [fluent.Node.input_name(0), v]))
             elif s[2] == "kw":
-                a = a.map(fluent.Payload(POOL["g"], [fluent.Node.input_name(0)], {"k": v}))
+                a = a.map(fluent.Payload(fn, [fluent.Node.input_name(0)], {"k": v}))
             else:
-                a = a.map(functools.partial(POOL["g"], s=v))
+                a = a.map(functools.partial(fn, s=v))
         elif s[0] == "yields":
             if "g" in a.nodes.dims:
                 continue
@@ -242,6 +256,10 @@ def _build_chain(shape, steps, lambda_sources=False, applied=None, caller_kw=Non
 def _val(a, value_eq):
     if value_eq and isinstance(a, (bool, int, float)):
         return ("num", float(a))
+    if value_eq and isinstance(a, np.ndarray) and a.size == 1:
+        return ("num", float(a.reshape(-1)[0]))  # Python's == on payloads: array([0.5]) == 0.5
+    if isinstance(a, np.ndarray):  # repr() of an array is a summary: compare the data
+        return ("ndarray", a.dtype.str, a.shape, a.tobytes().hex())
     return (type(a).__name__, repr(a))
 
 
@@ -259,9 +277,21 @@ def _ident(node, memo, value_eq: bool = False):
     return r
 
 
-def _f6_signature(n1, n2, memo) -> bool:
-    """True iff the clash between two same-named nodes is explained by known finding F6: at this node or at ancestors the only
-    difference is a pair of distinct callables with equal __name__ (printed args/kwargs and input wiring by name being equal)."""
+def _only_arrays_differ(a1, k1, a2, k2) -> bool:
+    """The static arguments differ, and every differing position holds two ndarrays (which then print alike: the caller has
+    compared the printed forms)."""
+    if len(a1) != len(a2) or sorted(k1) != sorted(k2):
+        return False
+    pairs = list(zip(a1, a2)) + [(k1[k], k2[k]) for k in k1]
+    differing = [(x, y) for x, y in pairs if _val(x, False) != _val(y, False)]
+    return bool(differing) and all(isinstance(x, np.ndarray) and isinstance(y, np.ndarray) for x, y in differing)
+
+
+def _kf_signature(n1, n2, memo, used: set) -> bool:
+    """True iff the clash between two same-named nodes is explained by recorded known findings, whose ids are added to `used`:
+    F6 -- at this node or at ancestors the only difference is a pair of distinct user callables with equal __name__;
+    F40 -- ... the only difference is ndarray static arguments that differ in value and print alike
+    (printed args/kwargs and input wiring by name being equal in both)."""
     f1, a1, k1 = n1.payload
     f2, a2, k2 = n2.payload
     if getattr(f1, "__name__", "") != getattr(f2, "__name__", ""):
@@ -281,10 +311,20 @@ def _f6_signature(n1, n2, memo) -> bool:
     explained = (f1 is not f2) and bool(n1.inputs)
     if f1 is not f2 and not n1.inputs:
         return False
+    if explained:
+        used.add("F6")
+    statics_differ = (tuple(_val(a, False) for a in a1), sorted((k,) + _val(v, False) for k, v in k1.items())) != \
+        (tuple(_val(a, False) for a in a2), sorted((k,) + _val(v, False) for k, v in k2.items()))
+    if statics_differ:
+        # printed forms are equal (checked above) yet the values differ: F40 if only arrays differ, unexplained otherwise
+        if not _only_arrays_differ(a1, k1, a2, k2) or not n1.inputs:
+            return False
+        used.add("F40")
+        explained = True
     for n in n1.inputs:
         p1, p2 = n1.inputs[n].parent, n2.inputs[n].parent
         if _ident(p1, memo) != _ident(p2, memo):
-            if not _f6_signature(p1, p2, memo):
+            if not _kf_signature(p1, p2, memo, used):
                 return False
             explained = True
     return explained
@@ -328,13 +368,19 @@ def run_names(c, stats: Stats | None) -> tuple[bool, list[str]]:
     for n in walk(Graph(list(a1.graph().sinks) + list(a2.graph().sinks))):
         by_name.setdefault(n.name, []).append(n)
     clash_known = False
+    clash_kinds: set = set()
     for name, group in by_name.items():
         idents = {}
         for n in group:
             idents.setdefault(_ident(n, memo), n)
         if len(idents) > 1:
             reps = list(idents.values())
-            if all(_f6_signature(reps[0], r, memo) for r in reps[1:]) and stats is not None and common.known(stats, PROPERTY, "F6"):
+            used: set = set()
+            if all(_kf_signature(reps[0], r, memo, used) for r in reps[1:]) and used and stats is not None \
+                    and all(common.known_findings().listed(PROPERTY, f) for f in used):
+                for f in sorted(used):
+                    common.known(stats, PROPERTY, f)
+                    clash_kinds.add(f)
                 clash_known = True
                 continue
             f = [r.payload[0] for r in reps]
@@ -371,7 +417,7 @@ def run_names(c, stats: Stats | None) -> tuple[bool, list[str]]:
             raise Violation(f"union has {len(distinct)} distinct computations but lowers to {len(job.tasks)} tasks "
                             f"({len(ser)} serialised nodes)", "task-count")
     else:
-        classes.append("known_F6_clash")
+        classes.extend(f"known_{f}_clash" for f in sorted(clash_kinds))
     differ = sum(1 for s, t in zip(c["p1"], c["p2"]) if s != t) if len(c["p1"]) == len(c["p2"]) else -1
     if differ == 1:
         classes.append("differ_in_exactly_one_step")
